@@ -152,6 +152,20 @@ order on the values that occur (then neither Go's map iteration order nor the un
 def sortedValues {κ ν : Type} (m : AMap κ ν) (cmp : ν → ν → Int) : List ν :=
   (m.map Prod.snd).mergeSort (fun a b => decide (cmp a b ≠ 1))
 
+/-- a call `f(a)` of a function VALUE (a variable or field of function type): nil panics -/
+def callFn1 {α β : Type} (f : Option (α → Outcome β)) (a : α) : Outcome β :=
+  match f with
+  | none => .panic "invalid memory address or nil pointer dereference"
+  | some g => g a
+def callFn2 {α β γ : Type} (f : Option (α → β → Outcome γ)) (a : α) (b : β) : Outcome γ :=
+  match f with
+  | none => .panic "invalid memory address or nil pointer dereference"
+  | some g => g a b
+def callFn3 {α β γ δ : Type} (f : Option (α → β → γ → Outcome δ)) (a : α) (b : β) (c : γ) : Outcome δ :=
+  match f with
+  | none => .panic "invalid memory address or nil pointer dereference"
+  | some g => g a b c
+
 /-- the body of a `for … range` loop in the Outcome monad -/
 def foldlE {σ α : Type} (f : σ → α → Outcome σ) : σ → List α → Outcome σ
   | s, [] => .ok s
